@@ -112,7 +112,7 @@ def r2_model_to_dataframe(R) -> None:
     if not R.require(q, len(rets), 'return of the frame', fi=f.fi, pred=lambda x: isinstance(x, ast.Return)):
         return
     R.check(len(rets) == 1, q, 'returns-frame', 'the frame is returned', 'model_to_dataframe has several returns', where=f.fi.where)
-    se = SymExec(f.fi.node)
+    se = f.symexec()
     v = canon(se.value(rets[0].ast, rets[0].ast.value))
     base, items = item_layers(v)
     if not is_call(base, 'DataFrame', 'pandas.DataFrame', 'pd.DataFrame'):
